@@ -41,7 +41,7 @@ impl Property for C15 {
         "C15"
     }
     fn rule(&self) -> &'static str {
-        "profile `determinism`: programs with 0-4 declares, several C columns and device reads (all three parser hash maps populated), some using random, half of them made static (no device reads; a sixth of those with a planted `declare VF` over constants, which in two cases of three cannot be evaluated); headers that leave signals out; 2-8 repeated parses; 1-4 iterators over one TestCase stepped by a generated interleaving schedule, each with its own identically scripted driver and (via the seed hook) the same seed; two different device scripts. Oracle: (a) all parses equal (ParsedTestCase: PartialEq) and all bound TestCases equal incl. the order of `signals`; (b) every iterator, sequential or interleaved, yields the same items; (c) try_iter_static().is_ok() iff the model's static analysis finds no device read, and then its rows equal the (inputs, expected, line) projection of dynamic runs under both scripts, and of a third run in which the driver's answer to one call is malformed (an entry dropped, repeated or of the wrong width) and the caller goes on after the error item: every item except the one that received the malformed answer equals the static one. Non-trivial: >= 2 declares, or >= 2 interleaved iterators over >= 3 rows, or a static program with >= 3 rows; distinct by source + signals + schedule."
+        "profile `determinism`: programs with 0-4 declares, several C columns and device reads (all three parser hash maps populated), some using random, half of them made static (no device reads; a sixth of those with a planted `declare VF` over constants, which in two cases of three cannot be evaluated); headers that leave signals out; 2-8 repeated parses; 1-4 iterators over one TestCase stepped by a generated interleaving schedule, each with its own identically scripted driver and (via the seed hook) the same seed; two different device scripts. The caller goes on after error items in every run, static ones included. In a sixth of the cases the text is also embedded in a .dig document that is parsed as often (equal signal lists, order included, and equal loaded tests). Oracle: (a) all parses equal (ParsedTestCase: PartialEq) and all bound TestCases equal incl. the order of `signals`; (b) every iterator, sequential or interleaved, yields the same items; (c) try_iter_static().is_ok() iff the model's static analysis finds no device read, and then its rows equal the (inputs, expected, line) projection of dynamic runs under both scripts, and of a third run in which the driver's answer to one call is malformed (an entry dropped, repeated or of the wrong width) and the caller goes on after the error item: every item except the one that received the malformed answer equals the static one. Non-trivial: >= 2 declares, or >= 2 interleaved iterators over >= 3 rows, or a static program with >= 3 rows; distinct by source + signals + schedule."
     }
     fn cases(&self, tier: Tier) -> u64 {
         match tier {
@@ -50,7 +50,7 @@ impl Property for C15 {
         }
     }
     fn required_classes(&self) -> Vec<&'static str> {
-        vec!["declares>=2", "interleaved>=2", "static-program", "non-static-program", "random", "C-row", "reads-device", "rows-after-malformed-answer", "static-program-with-constant-declare"]
+        vec!["declares>=2", "interleaved>=2", "static-program", "non-static-program", "random", "C-row", "reads-device", "rows-after-malformed-answer", "static-program-with-constant-declare", "static-items-after-an-error-item", "dig-document-with->=2-bidirectional"]
     }
     fn run(&self, s: &Streams) -> CaseOut {
         let mut out = CaseOut::new();
@@ -142,6 +142,40 @@ impl Property for C15 {
             }
         }
         let tc = &tcs[0];
+        // (a') in a sixth of the cases the same text is also embedded in a .dig document, which is
+        // parsed as often: the signal lists are equal, order included, and so are the loaded tests
+        if dch.chance(1, 6) {
+            let xml = dig_xml(&text, &built.sigs);
+            let mut files = vec![];
+            for k in 0..nparses {
+                match guarded(|| digital_test_runner::dig::File::parse(&xml)) {
+                    Err(p) => {
+                        out.fail(p.key(), format!("parse #{k} of the .dig document panicked: {p}"));
+                        return out;
+                    }
+                    Ok(Err(_)) => break,
+                    Ok(Ok(f)) => files.push(f),
+                }
+            }
+            if files.len() == nparses {
+                out.class("dig-document-parsed-repeatedly");
+                out.class_if(files[0].signals.iter().filter(|s| matches!(s.typ, digital_test_runner::SignalType::Bidirectional { .. })).count() >= 2, "dig-document-with->=2-bidirectional");
+                let names = |f: &digital_test_runner::dig::File| f.signals.iter().map(|s| s.name.clone()).collect::<Vec<_>>();
+                for k in 1..files.len() {
+                    if files[k].signals != files[0].signals {
+                        out.fail("c15:parses-differ", format!("parse #{k} of the same .dig document gives the signals {:?}, parse #0 {:?}", names(&files[k]), names(&files[0])));
+                        return out;
+                    }
+                    let (a, b) = (guarded(|| files[0].load_test(0).ok()), guarded(|| files[k].load_test(0).ok()));
+                    if let (Ok(a), Ok(b)) = (a, b) {
+                        if a != b {
+                            out.fail("c15:testcases-differ", format!("load_test(0) after parse #{k} of the same .dig document differs from the one after parse #0"));
+                            return out;
+                        }
+                    }
+                }
+            }
+        }
 
         // termination guard
         let t = crate::ri::run(&built.prog, &built.sigs, &spec, &crate::ri::RiOpts { draws: None, ..Default::default() });
@@ -152,7 +186,8 @@ impl Property for C15 {
         }
 
         // (b) sequential baseline, then interleaved iterators
-        let opts = RunOpts { max_next: 120, seed: Some(seed), ..Default::default() };
+        // (the caller goes on after error items, in dynamic and in static runs alike)
+        let opts = RunOpts { max_next: 120, seed: Some(seed), continue_after_error: true, ..Default::default() };
         let base = run_real(tc, &built.sigs, &spec, &opts);
         if let Some(RealItem::Panic(p)) = &base.ctor {
             out.fail(p.key(), format!("constructor panicked: {p}"));
@@ -237,7 +272,7 @@ impl Property for C15 {
         out.class_if(niters >= 2 && interleaved_rows >= 1, "interleaved>=2");
 
         // (c) static gate and static == dynamic
-        let st = run_static(tc, 120, Some(seed));
+        let st = run_static_opts(tc, 120, Some(seed), true);
         let mut static_rows = 0;
         match (&st, is_static) {
             (StaticRun::CtorPanic(p), _) => {
@@ -271,7 +306,8 @@ impl Property for C15 {
                 let p = dch.upto(8);
                 spec3.deviate_at = Some((bad_call, [Deviation::Drop(p), Deviation::Duplicate(p), Deviation::Rewidth(p)][dch.upto(3)].clone()));
                 let dyn3 = run_real(tc, &built.sigs, &spec3, &RunOpts { continue_after_error: true, ..RunOpts { max_next: 120, seed: Some(seed), ..Default::default() } });
-                let static_ends_in_error = matches!(items.last(), Some(StaticItem::Err(_)));
+                let static_ends_in_error = false;
+                out.class_if(items.iter().enumerate().any(|(k, i)| matches!(i, StaticItem::Err(_)) && k + 1 < items.len()), "static-items-after-an-error-item");
                 for (which, d) in [("first", &base), ("second", &dyn2), ("malformed-answer", &dyn3)] {
                     let third = which == "malformed-answer";
                     // the item during which the malformed answer was given
